@@ -141,6 +141,11 @@ def publicize_fields(frag, stats):
     if kw:
         # the type itself: private / pub(crate) -> pub
         k0 = kw[0]
+        if k0 >= 4 and frag[k0 - 1].s == ")" and frag[k0 - 3].s == "(" and frag[k0 - 4].s == "pub":
+            # pub(crate) / pub(super) on the type -> pub
+            del frag[k0 - 3:k0]; stats["R8.pub_type"] = 1
+            kw = [i for i, t in enumerate(frag) if t.s in ("struct", "enum")]
+            k0 = kw[0]
         if k0 == 0 or frag[k0 - 1].s not in ("pub", ")"):
             frag[k0:k0] = T("pub"); stats["R8.pub_type"] = 1
             kw = [i + 1 for i in kw]
@@ -331,6 +336,9 @@ def extract(unit, ex):
         frag = R.r2_trace(frag, st)
         frag = R.r4_macro(frag, st)
         frag = R.r2_trace(frag, st)
+        for a, b in cfg.get("await_subst", []):
+            # an `.await` that stands for an environment interaction is redirected before R1 drops the remaining awaits
+            frag = R.r8_subst(frag, st, [(a, b)], "R8a")
         frag = R.r1_await(frag, st)
         for a, b in cfg.get("pre_subst", []):
             frag = R.r8_subst(frag, st, [(a, b)], "R8p")
